@@ -42,10 +42,10 @@ class Adapter(EnvAdapter):
             return [
                 _c("default10a3", "default", 10, 10, 3, None, None, episodes=3, max_steps=104,
                    probe_every=4, probe_cap=20, policies=["sweep", "legal", "inject"]),
-                _c("s6x6a2_t7", "random", 6, 6, 2, 7, 0.5, episodes=6, max_steps=10, policies=POL),
+                _c("s6x6a2_t3", "random", 6, 6, 2, 3, 0.5, episodes=6, max_steps=6, policies=POL),
                 _c("r4x9a2_tnone", "random", 4, 9, 2, None, 0.5, episodes=5, max_steps=39, probe_every=2,
                    policies=["sweep", "legal", "inject", "masked", "random"]),
-                _c("r9x4a3_t3_p0", "random", 9, 4, 3, 3, 0.0, episodes=6, max_steps=6, probe_cap=24, policies=POL),
+                _c("r9x4a3_t7_p0", "random", 9, 4, 3, 7, 0.0, episodes=6, max_steps=10, probe_cap=24, policies=POL),
                 _c("r2x3a1_t2", "random", 2, 3, 1, 2, 0.5, episodes=6, max_steps=5, policies=POL),
                 _c("r2x3a1_tnone_p0", "random", 2, 3, 1, None, 0.0, episodes=6, max_steps=9, policies=POL),
                 _c("s3x3a2_t1", "random", 3, 3, 2, 1, 0.5, episodes=6, max_steps=4, policies=POL),
@@ -63,8 +63,8 @@ class Adapter(EnvAdapter):
                 pen = (0.5, 0.0, 0.3)[(k + j) % 3]
                 horizon = tl if tl is not None else r * c
                 out.append(_c(f"r{r}x{c}a{n}_t{'none' if tl is None else tl}_p{int(pen * 10)}", "random", r, c, n, tl, pen,
-                              episodes=30 if horizon <= 7 else 12, max_steps=horizon + 3,
-                              probe_every=1 if horizon <= 10 else 3, probe_cap=64 if n <= 3 else 40, policies=POL))
+                              episodes=18 if horizon <= 7 else 12, max_steps=horizon + 3,
+                              probe_every=1 if horizon <= 10 else 3, probe_cap=64 if r * c <= 30 else 40, policies=POL))
         seen = set()
         return [c for c in out if not (c["id"] in seen or seen.add(c["id"]))]
 
